@@ -6,7 +6,7 @@ _RULE = ("implementation-driven random gate-level histories of RefCount (SetCont
          "goroutines stepped through their first select, resolver returns with/without release function and error (a failing resolver returns the empty value "
          "3 times out of 4, else its usual value), store sections, root contexts cancelled by their owner, "
          "Wait, Resolve, WaitWithReleased (+ the lines of ResolveWithReleased replicated), ResolveWithReleased and Access consumers with cancellation, "
-         "release through the function Resolve/ResolveWithReleased returned, Access callbacks returning before and after an invalidation "
+         "release through the function Resolve/ResolveWithReleased returned, caller contexts of three flavours (the n-th consumer of a history: n%4 = 1 ends like a deadline, Err() == DeadlineExceeded; 3 cancelled with a cause; else plain WithCancel) and root contexts of the same three flavours, returned errors distinguished by identity (context.Canceled itself / DeadlineExceeded / the cause / other), Access callbacks returning before and after an invalidation "
          "incl. the ABA shape in a configuration where the resolver returns a constant value; the watcher goroutine of an Access callback parked between its wake-up and its cbCancel(), callbacks returning inside that window; successful resolver returns with the empty value, with and without release function) + corpus; distinct = distinct event sequence; non-trivial = >= 10 events")
 
 
@@ -121,7 +121,8 @@ PROPS = {
                          "inside its callback; Canceled for a cancelled caller. The seeded ABA variant is a _refuted theorem. Monitors on the "
                          "implementation's observations: clauses 10.1-10.3 as before; 10.4 value passed = current value; 10.5 invalidated => "
                          "callback context cancelled (judged once the watcher goroutine of the invocation is not parked before its cbCancel()); 10.6 callback result returned only from an invocation that was not invalidated (the invalidation itself counts, not the cancellation), re-invocation at quiescence; "
-                         "10.7 resolver error / Canceled returned as such. Monitors tied to the model for ALL event lists and EVERY configuration, all clauses "
+                         "10.7 resolver error / Canceled returned as such (the literal context.Canceled also for a caller context that ended like a deadline or was cancelled with a cause); "
+                         "10.8 a Wait/Resolve/ResolveWithReleased call that fails returns the resolver's error or context.Canceled, never another context error (consumer status 7, judged in every configuration). Monitors tied to the model for ALL event lists and EVERY configuration, all clauses "
                          "(model_satisfies_monitors, model_run_check_clean: the full statement): 10.1-10.3 (invariants: every value a Wait/Resolve/"
                          "ResolveWithReleased consumer was given is the empty value or a finished goroutine's; a WaitWithReleased consumer that was given a "
                          "result, is still in the set and has not fired implies that very result is still stored); 10.4-10.7 also in the constant-value "
